@@ -481,6 +481,94 @@ def sSetIntegrity {V} (h : Heap V) (o : Nat) (frozen : Bool) : Heap V :=
 def sTestIntegrity {V} (o : Obj V) (frozen : Bool) : Bool :=
   !o.ext && o.props.all (fun kp => !kp.2.configurable && (!frozen || kp.2.isAcc || !kp.2.writable))
 
+/-! ## Part 2b — [[Get]], [[HasProperty]], [[Delete]]: the three key-kind copies and their specs -/
+
+/-- `valueProperty.get(this)` value.go:513 -/
+def VProp.getRes {V} (p : VProp V) (undef : V) (this : Recv) : GetRes V :=
+  match p.getterFunc with
+  | none => (match p.value with
+             | some v => .val v
+             | none => .val undef)
+  | some f => .call f this
+
+/-- `baseObject.getStr` object.go:347 (`receiver == nil` ⇒ the caller passes `.obj o`; a nil result is `undefined`). -/
+def getStr {V} (undef : V) (mv : MView V) : List Nat → Key → Recv → GetRes V
+  | [], _, _ => .val undef                                          -- prop == nil && prototype == nil  :363
+  | o :: rest, name, receiver =>
+    match mv.own o name with                                        -- :348
+    | none => getStr undef mv rest name receiver                    -- :349-355
+    | some (.prop p) => p.getRes undef receiver                     -- :357-362
+    | some (.plain v) => .val v                                     -- :363
+
+/-- `baseObject.getSym` object.go:343 = `getWithOwnProp(getOwnPropSym(s), s, receiver)` :307 -/
+def getSym {V} (undef : V) (mv : MView V) : List Nat → Key → Recv → GetRes V
+  | [], _, _ => .val undef
+  | o :: rest, s, receiver =>
+    match mv.own o s with                                           -- :370 getOwnPropSym
+    | none => getSym undef mv rest s receiver                       -- :308-313 o.prototype.get(p, receiver)
+    | some (.prop p) => p.getRes undef receiver                     -- :314-319
+    | some (.plain v) => .val v                                     -- :320
+
+/-- `baseObject.getIdx` object.go:339: `o.val.self.getStr(idx.string(), receiver)` -/
+def getIdx {V} (undef : V) (mv : MView V) (chain : List Nat) (idx : Key) (receiver : Recv) : GetRes V :=
+  getStr undef mv chain idx receiver
+
+/-- OrdinaryGet (10.1.8.1) over a view -/
+def ordinaryGet {V} (undef : V) (sv : SView V) : List Nat → Key → Recv → GetRes V
+  | [], _, _ => .val undef
+  | o :: rest, k, r =>
+    match sv.own o k with
+    | none => ordinaryGet undef sv rest k r
+    | some (.data v _ _ _) => .val v
+    | some (.acc g _ _ _) => (match g with
+      | none => .val undef
+      | some f => .call f r)
+
+/-- `hasPropertyStr` object.go:283 / `hasPropertySym` :297 / `hasPropertyIdx` :293 (→ Str) -/
+def hasPropertyStr {V} (mv : MView V) : List Nat → Key → Bool
+  | [], _ => false
+  | o :: rest, name => (mv.own o name).isSome || hasPropertyStr mv rest name       -- :284-290
+def hasPropertySym {V} (mv : MView V) : List Nat → Key → Bool
+  | [], _ => false
+  | o :: rest, s => (mv.own o s).isSome || hasPropertySym mv rest s                -- :298-304
+def hasPropertyIdx {V} (mv : MView V) (chain : List Nat) (idx : Key) : Bool :=
+  hasPropertyStr mv chain idx                                                       -- :294
+
+/-- OrdinaryHasProperty (10.1.7.1) over a view -/
+def ordinaryHas {V} (sv : SView V) : List Nat → Key → Bool
+  | [], _ => false
+  | o :: rest, k => (sv.own o k).isSome || ordinaryHas sv rest k
+
+/-- outcome of [[Delete]]: result and whether the slot is removed -/
+structure DelRes where
+  ok : Bool
+  erase : Bool
+  deriving DecidableEq, Repr
+
+/-- `checkDelete` object.go:392 / `checkDeleteProp` :381 -/
+def checkDelete {V} : Stored V → Bool
+  | .prop p => p.configurable
+  | .plain _ => true
+
+/-- `deleteStr` object.go:441 -/
+def deleteStr {V} (mv : MView V) (o : Nat) (name : Key) : DelRes :=
+  match mv.own o name with
+  | some val => if !checkDelete val then ⟨false, false⟩ else ⟨true, true⟩     -- :443-446
+  | none => ⟨true, false⟩                                                      -- :448
+/-- `deleteSym` object.go:429 -/
+def deleteSym {V} (mv : MView V) (o : Nat) (s : Key) : DelRes :=
+  match mv.own o s with                                                        -- :431
+  | some val => if !checkDelete val then ⟨false, false⟩ else ⟨true, true⟩     -- :432-435
+  | none => ⟨true, false⟩
+/-- `deleteIdx` object.go:425 -/
+def deleteIdx {V} (mv : MView V) (o : Nat) (idx : Key) : DelRes := deleteStr mv o idx
+
+/-- OrdinaryDelete (10.1.10.1) over a view -/
+def ordinaryDelete {V} (sv : SView V) (o : Nat) (k : Key) : DelRes :=
+  match sv.own o k with
+  | none => ⟨true, false⟩
+  | some p => if p.configurable then ⟨true, true⟩ else ⟨false, false⟩
+
 /-! ### Snapshot monitor — the essential invariants (6.1.7.3) between two observed states of ONE object.
 Used (a) as a theorem about every spec step, (b) on the implementation's dumps for object kinds that are not modelled. -/
 
